@@ -303,6 +303,25 @@ def r4(R, M):
         rets = [r for r in ast.walk(fn) if isinstance(r, ast.Return) and r.value is not None]
         R.shape(len(rets) == 1, "C10.R4", GR, "grain.%s" % meth, "a single return")
         u = pyfacts.resolved_src(fn, rets[0].value, 3, keep=("self", "dzero_cell", "m")).replace(" ", "")
+        if not u.startswith("symm_to_e6("):
+            # the packing written out: np.array((E[0,0], E[0,1], ...)) with the index order of finite_strain.symm_to_e6 itself
+            def _six(e_):
+                if isinstance(e_, ast.Call) and (pyfacts.dotted(e_.func) or "").split(".")[-1] in ("array", "asarray") and e_.args \
+                        and isinstance(e_.args[0], (ast.Tuple, ast.List)) and len(e_.args[0].elts) == 6 \
+                        and all(isinstance(x, ast.Subscript) and isinstance(x.slice, ast.Tuple) and len(x.slice.elts) == 2 for x in e_.args[0].elts):
+                    bases = set(src(x.value).replace(" ", "") for x in e_.args[0].elts)
+                    idx = [tuple(pyfacts.const_int(i_) for i_ in x.slice.elts) for x in e_.args[0].elts]
+                    if len(bases) == 1:
+                        return bases.pop(), idx
+                return None
+            fsm = pyfacts.module(R, "ImageD11/finite_strain.py")
+            ref_ret = [r_ for r_ in ast.walk(fsm.func("symm_to_e6")) if isinstance(r_, ast.Return) and r_.value is not None]
+            ref6 = _six(ref_ret[0].value) if len(ref_ret) == 1 else None
+            got6 = _six(pyfacts.resolved(fn, rets[0].value, 1, keep=("self", "dzero_cell", "m")))
+            R.shape(ref6 is not None and got6 is not None, "C10.R4", GR, "grain.%s" % meth, "symm_to_e6(<matrix>) or the six elements written out (%s)" % u[:60])
+            base_expr = [a_.value for a_ in ast.walk(fn) if isinstance(a_, ast.Assign) and src(a_.targets[0]) == got6[0]]
+            bu = pyfacts.resolved_src(fn, base_expr[-1], 3, keep=("self", "dzero_cell", "m")).replace(" ", "") if base_expr else got6[0]
+            u = "symm_to_e6(%s)" % bu if got6[1] == ref6[1] else u
         R.check(u in ("symm_to_e6(self.%s(dzero_cell,m))" % inner, "symm_to_e6(self.%s(dzero_cell,m=m))" % inner), "C10.R4", GR, fn.lineno, "grain.%s" % meth,
                 "%s = symm_to_e6(%s(dzero_cell, m))" % (meth, inner), "the 6-vector is not the packing of the matrix of the same frame")
     I = vn_py.Interp(M, policy=nan_policy)
